@@ -4,7 +4,7 @@
 use crate::hist::*;
 use crate::node::*;
 use ckb_db::IteratorMode;
-use ckb_db_schema::{COLUMN_CELL, COLUMN_INDEX, COLUMN_TRANSACTION_INFO, COLUMN_UNCLES};
+use ckb_db_schema::{COLUMN_CELL, COLUMN_CELL_DATA, COLUMN_CELL_DATA_HASH, COLUMN_INDEX, COLUMN_TRANSACTION_INFO, COLUMN_UNCLES};
 use ckb_store::ChainStore;
 use ckb_types::core::BlockView;
 use ckb_types::packed::{self, Byte32};
@@ -31,6 +31,12 @@ pub struct Dump {
     pub index: BTreeMap<u64, u64>,
     pub rindex: BTreeMap<u64, u64>,
     pub uncles: BTreeSet<u64>,
+    /// the stored values byte for byte (hex): CellEntry (output, creating block's hash / number / epoch, index, data size),
+    /// CellDataEntry, data hash, TransactionInfo (block number / epoch, key)
+    pub cell_bytes: BTreeMap<(u64, u32), String>,
+    pub cell_data: BTreeMap<(u64, u32), String>,
+    pub cell_data_hash: BTreeMap<(u64, u32), String>,
+    pub txinfo_bytes: BTreeMap<u64, String>,
 }
 
 const UNKNOWN: u64 = 9_000_000;
@@ -44,11 +50,21 @@ pub fn dump_store<S: ChainStore>(s: &S, block_id: &HashMap<Byte32, u64>, tx_id: 
         let e = packed::CellEntryReader::from_slice_should_be_ok(&v);
         let ti: u32 = e.index().into();
         d.cells.insert((tid(&k[..32]), idx), (bid(e.block_hash().as_slice()), ti));
+        d.cell_bytes.insert((tid(&k[..32]), idx), hex(&v));
+    }
+    for (k, v) in s.get_iter(COLUMN_CELL_DATA, IteratorMode::Start) {
+        let idx = u32::from_be_bytes(k[32..36].try_into().unwrap());
+        d.cell_data.insert((tid(&k[..32]), idx), hex(&v));
+    }
+    for (k, v) in s.get_iter(COLUMN_CELL_DATA_HASH, IteratorMode::Start) {
+        let idx = u32::from_be_bytes(k[32..36].try_into().unwrap());
+        d.cell_data_hash.insert((tid(&k[..32]), idx), hex(&v));
     }
     for (k, v) in s.get_iter(COLUMN_TRANSACTION_INFO, IteratorMode::Start) {
         let e = packed::TransactionInfoReader::from_slice_should_be_ok(&v);
         let ti: u32 = e.key().index().into();
         d.txinfo.insert(tid(&k), (bid(e.key().block_hash().as_slice()), ti));
+        d.txinfo_bytes.insert(tid(&k), hex(&v));
     }
     for (k, v) in s.get_iter(COLUMN_INDEX, IteratorMode::Start) {
         if k.len() == 8 {
@@ -76,8 +92,32 @@ pub fn replay(chain: &[BlockView], block_id: &HashMap<Byte32, u64>, tx_id: &Hash
         for (ti, tx) in b.transactions().iter().enumerate() {
             let t_id = tx_id[&tx.hash()];
             d.txinfo.insert(t_id, (b_id, ti as u32));
-            for i in 0..tx.outputs().len() {
+            let info = packed::TransactionInfo::new_builder()
+                .block_number(b.number())
+                .block_epoch(b.epoch())
+                .key(packed::TransactionKey::new_builder().block_hash(b.hash()).index(ti).build())
+                .build();
+            d.txinfo_bytes.insert(t_id, hex(info.as_slice()));
+            for (i, (output, data)) in tx.outputs_with_data_iter().enumerate() {
                 d.cells.insert((t_id, i as u32), (b_id, ti as u32));
+                let entry = packed::CellEntry::new_builder()
+                    .output(output)
+                    .block_hash(b.hash())
+                    .block_number(b.number())
+                    .block_epoch(b.epoch())
+                    .index(ti)
+                    .data_size(data.len() as u64)
+                    .build();
+                d.cell_bytes.insert((t_id, i as u32), hex(entry.as_slice()));
+                if !data.is_empty() {
+                    let dh = packed::CellOutput::calc_data_hash(&data);
+                    let de = packed::CellDataEntry::new_builder().output_data(data).output_data_hash(dh.clone()).build();
+                    d.cell_data.insert((t_id, i as u32), hex(de.as_slice()));
+                    d.cell_data_hash.insert((t_id, i as u32), hex(dh.as_slice()));
+                } else {
+                    d.cell_data.insert((t_id, i as u32), String::new());
+                    d.cell_data_hash.insert((t_id, i as u32), String::new());
+                }
             }
         }
         for tx in b.transactions().iter().skip(1) {
@@ -85,6 +125,9 @@ pub fn replay(chain: &[BlockView], block_id: &HashMap<Byte32, u64>, tx_id: &Hash
                 let t = *tx_id.get(&op.tx_hash()).unwrap_or(&UNKNOWN);
                 let i: u32 = op.index().into();
                 d.cells.remove(&(t, i));
+                d.cell_bytes.remove(&(t, i));
+                d.cell_data.remove(&(t, i));
+                d.cell_data_hash.remove(&(t, i));
             }
         }
     }
@@ -128,6 +171,13 @@ pub fn diff_dumps(got: &Dump, want: &Dump) -> Option<String> {
     if got.txinfo != want.txinfo { return Some("transaction-location index differs from the replay".into()); }
     if got.index != want.index || got.rindex != want.rindex { return Some("number<->hash index differs from the replay".into()); }
     if got.uncles != want.uncles { return Some("included-uncle index differs from the replay".into()); }
+    if got.cell_bytes != want.cell_bytes {
+        let first = got.cell_bytes.iter().find(|(k, v)| want.cell_bytes.get(*k) != Some(*v));
+        return Some(format!("a live cell's stored entry (output / creating block's hash, number, epoch / index / data size) differs from the replay: cell {:?} stored {:?} replay {:?}",
+            first.map(|(k, _)| k), first.map(|(_, v)| v), first.and_then(|(k, _)| want.cell_bytes.get(k))));
+    }
+    if got.cell_data != want.cell_data || got.cell_data_hash != want.cell_data_hash { return Some("the stored cell data / data hashes differ from the replay".into()); }
+    if got.txinfo_bytes != want.txinfo_bytes { return Some("a stored TransactionInfo (block number / epoch / key) differs from the replay".into()); }
     None
 }
 
